@@ -18,7 +18,8 @@ package main
 //	violated  no condition does, and all of them are transparent (comparisons of sizes, widths, flags): the loop
 //	          stops counting lines for a reason other than the height limit (e.g. on the WIDTH clamp);
 //	not judged  a condition calls a function of the repository whose result the rule cannot resolve (a helper that
-//	          reports "no room left"): nothing is claimed for that exit.
+//	          reports "no room left"), or tests a local that is one result of a multi-value call (`line, ok := next()`
+//	          followed by `if !ok { break }`: the end of a pull iterator): nothing is claimed for that exit.
 
 import (
 	"go/ast"
@@ -168,9 +169,39 @@ func c16mFunc(c *Ctx, e *c14Env, fi *FuncInfo, key string) {
 		}
 		return false
 	}
+	// locals that receive one result of a multi-value call (`line, ok := next()`): what such a flag says is what the
+	// callee says — a predicate the rule does not resolve, like a call in the condition itself
+	tupleFed := map[types.Object]bool{}
+	ast.Inspect(fi.Decl.Body, func(n ast.Node) bool {
+		as, ok := n.(*ast.AssignStmt)
+		if !ok || len(as.Rhs) != 1 || len(as.Lhs) < 2 {
+			return true
+		}
+		call, ok := unparen(as.Rhs[0]).(*ast.CallExpr)
+		if !ok {
+			return true
+		}
+		if tv, ok := info.Types[call.Fun]; ok && tv.IsType() {
+			return true
+		}
+		for _, lh := range as.Lhs {
+			if id, ok := unparen(lh).(*ast.Ident); ok {
+				if o, isVar := info.ObjectOf(id).(*types.Var); isVar && !o.IsField() {
+					tupleFed[o] = true
+				}
+			}
+		}
+		return true
+	})
 	hasRepoCall := func(l c14wLit) bool {
 		found := false
 		ast.Inspect(l.v.x, func(n ast.Node) bool {
+			if id, isID := n.(*ast.Ident); isID && !found {
+				if o := l.v.sc.info.ObjectOf(id); o != nil && tupleFed[o] {
+					found = true
+					return false
+				}
+			}
 			call, ok := n.(*ast.CallExpr)
 			if !ok || found {
 				return !found
